@@ -119,7 +119,9 @@ def rerun_family():
              ('act', 'set', (('zone', S('s'), N(1), N(2)),)), ('act', 'set', (('matrix', S('m'), (N(0), None), None),)),
              ('setdefault',), ('assign', 'x', ('reg', 'hue')), ('print', ('reg', 'hue')), ('wait',),
              ('printf', '{} {}', (N(1), ('bin', '/', N(1), N(0)))), ('printf', '{}', (N(5),)), ('printf', '{} {}', (N(1), N(2))),
-             ('setreg', 'hue', ('bin', '/', N(1), N(0)))]
+             ('setreg', 'hue', ('bin', '/', N(1), N(0))),
+             ('defmacro', 'lvl', N(5)), ('printf', '{lvl} {}', (N(7),)), ('printf', '{x} {hue}', ()),
+             ('repeat', ('range', 'lvl', N(1), N(2)), (('setreg', 'hue', ('var', 'lvl')), ('act', 'set', (('light', S('a')),))))]
     for n in (1, 2, 3, 4):
         for seq in itertools.product(alpha, repeat=n):
             if n == 4 and not any(s[0] == 'units' for s in seq):
